@@ -6,7 +6,7 @@ sys.path.insert(0, os.path.dirname(os.path.abspath(__file__)))
 from props import PROPS
 V = os.path.dirname(os.path.dirname(os.path.abspath(__file__)))
 out = []
-out.append("### 7.6 Per-property status as built (generated from lib/props.py)\n")
+out.append("### 7.7 Per-property status as built (generated from lib/props.py)\n")
 for pid in sorted(PROPS):
     c = PROPS[pid]
     eng = []
@@ -23,6 +23,8 @@ for pid in sorted(PROPS):
     for x in c.get("not_decided", []):
         out.append("* " + x)
     out.append("")
+status_block = "\n".join(out)
+out = []
 out.append("## 9. Seeded changes: which checks catch which\n")
 out.append("Each change was proposed by a fresh sub-agent that saw only the property text and its own scratch worktree, then confirmed here independently (`lib/confirm_seed.py`: demo passes on the unchanged tree, fails with the change, full suite passes with the change) and kept under `seeded/<name>/`. `lib/run_seed.py` runs the property's registered check against a copy of the tree with the patch applied.\n")
 out.append("| seed | change | needs | result of the check |")
@@ -39,11 +41,10 @@ for p in sorted(glob.glob(os.path.join(V, "seeded", "*", "meta.json"))):
         r = "not run" + (" -- " + m["why_missed"] if m.get("why_missed") else "")
     out.append("| %s | %s | %s | %s |" % (name, (m.get("breaks") or "").replace("|", "\\|"), (m.get("needs_to_manifest") or "").replace("|", "\\|"), r.replace("|", "\\|")))
 out.append("")
-block = "\n".join(out)
+seeded_block = "\n".join(out)
 p = os.path.join(V, "DESIGN.md")
 s = open(p).read()
-if "<!-- STATUS:BEGIN -->" not in s:
-    s += "\n<!-- STATUS:BEGIN -->\n<!-- STATUS:END -->\n"
-s = re.sub(r"<!-- STATUS:BEGIN -->.*<!-- STATUS:END -->", lambda m: "<!-- STATUS:BEGIN -->\n" + block + "\n<!-- STATUS:END -->", s, flags=re.S)
+s = re.sub(r"<!-- STATUS:BEGIN -->.*<!-- STATUS:END -->", lambda m: "<!-- STATUS:BEGIN -->\n" + status_block + "\n<!-- STATUS:END -->", s, flags=re.S)
+s = re.sub(r"<!-- SEEDED:BEGIN -->.*<!-- SEEDED:END -->", lambda m: "<!-- SEEDED:BEGIN -->\n" + seeded_block + "\n<!-- SEEDED:END -->", s, flags=re.S)
 open(p, "w").write(s)
 print("DESIGN.md status block: %d lines" % len(out))
